@@ -52,19 +52,33 @@ def classify_exc(e) -> str:
     return "crash:" + type(e).__name__
 
 
+_NOTE = re.compile(r"expected [\u2018'](.+?)[\u2019'](?: \{aka [^}]*\})? but argument is of type [\u2018'](.+?)[\u2019']")
+
+
+def _arg_mismatch_class(out: str) -> str:
+    """class of an `incompatible type for argument` error from gcc's note `expected 'X' but argument is of type 'Y'`"""
+    for m in _NOTE.finditer(out):
+        exp, got = m.group(1), m.group(2)
+        ew, gw = re.match(r"struct (exo_win_\w+)$", exp), re.match(r"struct (exo_win_\w+)$", got)
+        if ew and gw:
+            if ew.group(1) == gw.group(1) + "c":
+                return "const-window-arg"          # non-const window struct for the const variant
+            if gw.group(1) == ew.group(1) + "c":
+                return "const-window-arg-rev"      # const window struct for the non-const variant
+            return "window-struct-mismatch"
+        if gw and "*" in exp:
+            return "window-for-pointer"
+        if ew and "*" in got:
+            return "pointer-for-window"
+    return "incompatible-arg"
+
+
 def classify_gcc_line(l: str, out: str) -> str:
     if "error:" not in l and "warning:" not in l:
         return ""
     msg = (l.split("error:")[-1] if "error:" in l else l.split("warning:")[-1]).strip()
     if "incompatible type for argument" in msg:
-        # the note lines tell struct const variant vs pointer
-        if re.search(r"expected .struct exo_win_\w+c. but argument is of type .struct exo_win_\w+[0-9](?!c)", out):
-            return "const-window-arg"
-        if re.search(r"expected .(const )?\w+ ?\*. but argument is of type .struct exo_win_", out):
-            return "window-for-pointer"
-        if re.search(r"expected .struct exo_win_\w+. but argument is of type .(const )?\w+ ?\*", out):
-            return "pointer-for-window"
-        return "incompatible-arg"
+        return _arg_mismatch_class(out)
     if "array size missing" in msg or "storage size of" in msg:
         return "unsized-array"
     if "assignment to expression with array type" in msg or ("incompatible types when assigning" in msg and "*" in msg):
@@ -98,11 +112,11 @@ def classify_gcc(out: str) -> list:
     return res
 
 
-def run_gcc_batch(workdir, items, hname, header_too=True, batch=10):
+def run_gcc_batch(workdir, items, hname, header_every=1, batch=10):
     """items: [(cid, source, header)] -> {cid: {"rc":…, "classes": [...], "out": text}}; one gcc driver call per
     `batch` cases (diagnostics carry the file path, so they are split back per case)."""
-    dirs = {}
-    for cid, source, header in items:
+    dirs, hdr = {}, set()
+    for n_item, (cid, source, header) in enumerate(items):
         dn = re.sub(r"[^A-Za-z0-9_]", "_", cid)
         d = os.path.join(workdir, dn)
         os.makedirs(d, exist_ok=True)
@@ -113,6 +127,8 @@ def run_gcc_batch(workdir, items, hname, header_too=True, batch=10):
         with open(os.path.join(d, "h.c"), "w") as f:  # the header alone must be a valid translation unit too
             f.write('#include "%s"\n#include "%s"\n' % (hname, hname))
         dirs[dn] = cid
+        if header_every and n_item % header_every == 0:
+            hdr.add(dn)
     res = {cid: {"rc": 0, "classes": [], "out": ""} for cid, _, _ in items}
     names = list(dirs)
     for k in range(0, len(names), batch):
@@ -120,7 +136,7 @@ def run_gcc_batch(workdir, items, hname, header_too=True, batch=10):
         files = []
         for dn in chunk:
             files.append(dn + "/u.c")
-            if header_too:
+            if dn in hdr:
                 files.append(dn + "/h.c")
         try:
             p = subprocess.run(["gcc"] + GCC_FLAGS + files, cwd=workdir, capture_output=True, text=True, timeout=600)
@@ -246,41 +262,64 @@ def run_case(job, i):
         rec["impl"] = {"verdict": "err", "class": cls, "msg": str(e)[:400]}
         if cls.startswith("crash"):
             rec["impl"]["tb"] = traceback.format_exc()[-1200:]
+            frames = traceback.extract_tb(e.__traceback__)
+            if frames and re.search(r"exo/(libs/memories|core/memory|libs/externs|core/extern)\.py$", frames[-1].filename):
+                # raised inside a Memory / Extern code-string method: opaque to the model
+                rec["impl"]["class"] = "opaque-mem:" + type(e).__name__
         source = header = None
     rec["t"] = round(time.time() - t0, 3)
     return rec, source, header
 
 
 def main():
+    """JOB = {"seed", "parts": [{"stream", "start", "count", "gcc_limit"}], "out", "workdir", "header_every",
+              "gen_budget_s", "gcc_budget_s"}: the parts are processed in order; generation stops when gen_budget_s of wall
+    time are used (the remaining cases are reported as not run), the gcc batches stop after gcc_budget_s more."""
+    t_start = time.time()
     job = json.load(open(sys.argv[1]))
-    recs, togcc = [], []
-    gcc_limit = job.get("gcc_limit")
-    for i in range(job["start"], job["start"] + job["count"]):
-        try:
-            rec, source, header = run_case(job, i)
-        except BaseException as e:  # never lose a case silently
-            rec = {"id": "%s-%d-%d" % (job["stream"], job["seed"], i), "stream": job["stream"], "index": i,
-                   "worker_crash": "%s: %s" % (type(e).__name__, e), "tb": traceback.format_exc()[-1500:]}
-            source = header = None
-        recs.append(rec)
-        if source is not None and job.get("gcc") and (gcc_limit is None or len(togcc) < gcc_limit):
-            togcc.append((rec["id"], source, header))
+    recs, togcc, skipped = [], [], 0
+    gen_budget = job.get("gen_budget_s") or 1e9
+    for part in job["parts"]:
+        pj = dict(job, stream=part["stream"])
+        n_gcc_part = 0
+        for i in range(part["start"], part["start"] + part["count"]):
+            if time.time() - t_start > gen_budget:
+                skipped += 1
+                continue
+            try:
+                rec, source, header = run_case(pj, i)
+            except BaseException as e:  # never lose a case silently
+                rec = {"id": "%s-%d-%d" % (part["stream"], job["seed"], i), "stream": part["stream"], "index": i,
+                       "worker_crash": "%s: %s" % (type(e).__name__, e), "tb": traceback.format_exc()[-1500:]}
+                source = header = None
+            recs.append(rec)
+            lim = part.get("gcc_limit")
+            if source is not None and (lim is None or n_gcc_part < lim):
+                n_gcc_part += 1
+                togcc.append((rec["id"], source, header))
+    gt, done = 0.0, 0
     if togcc:
         t0 = time.time()
-        res = run_gcc_batch(job["workdir"], togcc, "c15.h", header_too=job.get("header_too", True))
         texts = {cid: (s_, h_) for cid, s_, h_ in togcc}
-        for rec in recs:
-            if rec["id"] in res:
-                rec["gcc"] = res[rec["id"]]
-                if rec["gcc"]["classes"]:
-                    rec["c"], rec["h"] = texts[rec["id"]]
+        byid = {r["id"]: r for r in recs}
+        budget = job.get("gcc_budget_s") or 1e9
+        B = 4
+        for k in range(0, len(togcc), B):
+            if time.time() - t0 > budget:
+                break
+            chunk = togcc[k:k + B]
+            res = run_gcc_batch(job["workdir"], chunk, "c15.h", header_every=job.get("header_every", 1), batch=B)
+            for cid, r in res.items():
+                byid[cid]["gcc"] = r
+                done += 1
+                if r["classes"]:
+                    byid[cid]["c"], byid[cid]["h"] = texts[cid]
         gt = time.time() - t0
-    else:
-        gt = 0.0
     with open(job["out"], "w") as out:
         for rec in recs:
             out.write(json.dumps(rec) + "\n")
-        out.write(json.dumps({"summary": True, "gcc_s": round(gt, 2), "n_gcc": len(togcc)}) + "\n")
+        out.write(json.dumps({"summary": True, "gcc_s": round(gt, 2), "n_gcc": done, "gcc_unchecked": len(togcc) - done,
+                              "not_run": skipped, "wall_s": round(time.time() - t_start, 1)}) + "\n")
 
 
 if __name__ == "__main__":
